@@ -6,6 +6,7 @@ import (
 	"bytes"
 	"fmt"
 	"io"
+	"math"
 	"math/rand"
 	"strings"
 	"sync"
@@ -250,7 +251,7 @@ func TestVerifC10(t *testing.T) {
 			small = append(small, i)
 		}
 	}
-	thrs := []float64{0, 1e-9, 0.01, 0.3, 0.5, 0.8, 0.99, 1.0}
+	thrs := []float64{0, 1e-9, 0.01, 0.3, 0.5, 0.8, 0.99, 1.0, 1 - 1e-12, math.Nextafter(1, 0), 0.999999, 0.6666666666666666, 0.75}
 	corpora := []string{"empty", "empty-docs", "one-word-docs", "small-synthetic", "repetitive", "embedded", "embedded", "embedded"}
 
 	n := e.pick(6000, 300000)
